@@ -1002,7 +1002,7 @@ func TestScenarios(t *testing.T) {
 	}
 	r.Rule(ruleText)
 	box := &cl.Infra{}
-	r.Rapid(t, "TestScenarios", r.Pick(1200, 12000), func(rt *rapid.T) {
+	r.Rapid(t, "TestScenarios", r.Pick(1200, 9000), func(rt *rapid.T) {
 		if box.Err() != nil {
 			rapid.Bool().Draw(rt, "skipped-after-infra-error")
 			return
